@@ -12,6 +12,9 @@ import (
 
 type pathEnd struct{ reason string }
 
+var forkStats map[string]int
+var forkMu sync.Mutex
+
 type Violation struct {
 	Label   string            `json:"label"`
 	Model   map[string]string `json:"model"`
@@ -140,6 +143,7 @@ type Explorer struct {
 	oblOnPath int
 	dumpDir  string
 	verbose  bool
+	site     func() string
 }
 
 func (e *Explorer) replaying() bool { return len(e.taken) < len(e.prefix) }
@@ -200,9 +204,17 @@ func (e *Explorer) incon(msg string) {
 func (e *Explorer) check(c string) string {
 	e.z.Push()
 	e.z.Send("(assert " + c + ")")
+	t0 := time.Now()
 	r := e.z.Check()
 	if r != "sat" && r != "unsat" {
 		e.incon("solver: " + r)
+	}
+	if os.Getenv("GOSYM_V") != "" && time.Since(t0) > 2*time.Second {
+		w := ""
+		if e.site != nil {
+			w = e.site()
+		}
+		fmt.Fprintf(os.Stderr, "  SLOWQ %v %s at %s: %s\n", time.Since(t0).Round(time.Millisecond), r, w, trunc(c, 300))
 	}
 	return r
 }
@@ -243,6 +255,11 @@ func (e *Explorer) Branch(c Bool) bool {
 		if f == "sat" || f == "unknown" {
 			alt := append(append([]int{}, e.taken...), 0)
 			e.q.Push(alt)
+			if e.site != nil && forkStats != nil {
+				forkMu.Lock()
+				forkStats[e.site()]++
+				forkMu.Unlock()
+			}
 		}
 		d = true
 	} else if t == "unsat" {
@@ -258,6 +275,69 @@ func (e *Explorer) Branch(c Bool) bool {
 		e.Assume(Not(c))
 	}
 	return d
+}
+
+// ConcretizeBV enumerates the feasible values of a bit-vector term: the solver proposes a value
+// (model), the path forks on "term == value" / "term != value".
+func (e *Explorer) ConcretizeBV(term string, w int) (uint64, bool) {
+	for iter := 0; iter < 5000; iter++ {
+		k := e.Aux(func() int {
+			e.z.Push()
+			r := e.z.Check()
+			v := -1
+			if r == "sat" {
+				vals := parseValues(e.z.GetValues([]string{term}))
+				if len(vals) == 1 {
+					v = int(parseBVLit(vals[0]))
+				}
+			} else if r != "unsat" {
+				e.incon("solver: " + r)
+			}
+			e.z.Pop()
+			return v
+		})
+		if k < 0 {
+			panic(pathEnd{"infeasible or unknown at concretization"})
+		}
+		eq := Bool{S: "(= " + term + " " + CI(w, uint64(k)).T() + ")"}
+		idx := len(e.taken)
+		if idx < len(e.prefix) {
+			d := e.prefix[idx]
+			e.taken = append(e.taken, d)
+			if d != 0 {
+				e.Assume(eq)
+				return uint64(k), true
+			}
+			e.Assume(Not(eq))
+			continue
+		}
+		// eq is satisfiable (it came from a model); is there another value?
+		f := e.check("(not " + eq.S + ")")
+		e.pop()
+		if f == "sat" || f == "unknown" {
+			e.q.Push(append(append([]int{}, e.taken...), 0))
+		}
+		e.taken = append(e.taken, 1)
+		e.Assume(eq)
+		return uint64(k), true
+	}
+	return 0, false
+}
+
+func parseBVLit(s string) uint64 {
+	s = strings.TrimSpace(s)
+	var v uint64
+	switch {
+	case strings.HasPrefix(s, "#x"):
+		fmt.Sscanf(s[2:], "%x", &v)
+	case strings.HasPrefix(s, "#b"):
+		for _, c := range s[2:] {
+			v = v<<1 | uint64(c-'0')
+		}
+	case strings.HasPrefix(s, "(_ bv"):
+		fmt.Sscanf(s[5:], "%d", &v)
+	}
+	return v
 }
 
 // Choose is a free nondeterministic choice among n alternatives (all assumed feasible).
